@@ -152,4 +152,16 @@ theorem quiet_run {g : Graph} {lim : Option Nat} : ∀ (ls : List Label) (s s' :
         · exact .inr (List.mem_map.mpr ⟨(v, .start), mem_of_wpc h, rfl⟩)
       · exact .inr (hw1 v h)
 
+/-- `d` is a transitive prerequisite of `v` along a chain whose intermediate vertices are visited (not skipped by the
+root selection).  Forward walk: `v` depends on … depends on `d`; reverse walk: `d` depends on … depends on `v`. -/
+inductive PreChain (g : Graph) : V → V → Prop
+  | one {d v : V} : d ∈ g.pre v → PreChain g d v
+  | cons {d u v : V} : PreChain g d u → g.skip u = false → u ∈ g.pre v → PreChain g d v
+
+theorem preChain_left {g : Graph} {d m v : V} (hdm : d ∈ g.pre m) (hm : g.skip m = false) (hc : PreChain g m v) :
+    PreChain g d v := by
+  induction hc with
+  | one hp => exact .cons (.one hdm) hm hp
+  | cons _ hku hpu ih => exact .cons ih hku hpu
+
 end CV.Trav
